@@ -47,7 +47,8 @@ impl PlainAcc {
             balance: self.balance,
             nonce: self.nonce,
             code_hash: self.code_hash(),
-            code: Some(Bytecode::new_legacy(self.code.clone())),
+            // as a database would hand it out: designators and EOF containers are recognised
+            code: Some(Bytecode::new_raw_checked(self.code.clone()).unwrap_or_else(|_| Bytecode::new_legacy(self.code.clone()))),
         }
     }
 }
